@@ -982,7 +982,9 @@ where
     }
     let dvals: Vec<V> = ents.into_iter().map(|e| e.1).collect();
     let values = build(vdt, &dvals, cx)?;
-    let karr = PrimitiveArray::<K>::try_new(ScalarBuffer::from(keys), mk_nulls(&kvalid, cx)).map_err(es)?;
+    // DictionaryArray::is_nullable is true as soon as the keys carry a validity buffer
+    let knulls = if kvalid.iter().all(|b| *b) { None } else { mk_nulls(&kvalid, cx) };
+    let karr = PrimitiveArray::<K>::try_new(ScalarBuffer::from(keys), knulls).map_err(es)?;
     let d = DictionaryArray::<K>::try_new(karr, values).map_err(es)?;
     debug_assert_eq!(d.data_type(), dt);
     Ok(Arc::new(d))
